@@ -28,6 +28,7 @@ type layer struct {
 	fields   []field
 	cuts     []int // offsets where cutting leaves a well-formed shorter payload (0 and len are implied valid / identity)
 	anyCutOK bool  // the format has no declared extent: every prefix may be well formed (nothing is certain)
+	rec      int   // >0: the payload is an array of fixed-size records (voxels): cuts between records are field boundaries too
 }
 
 func (l *layer) bounds() []int {
@@ -38,6 +39,15 @@ func (l *layer) bounds() []int {
 	}
 	for _, c := range l.cuts {
 		set[c] = true
+	}
+	if l.rec > 0 && len(l.data) >= 2*l.rec {
+		// a payload cut between two records is still an array of whole records: only its count is wrong
+		n := len(l.data) / l.rec
+		for _, k := range []int{1, n / 4, n / 2, 3 * n / 4, n - 1} {
+			if k > 0 && k < n {
+				set[k*l.rec] = true
+			}
+		}
 	}
 	var out []int
 	for o := range set {
